@@ -54,8 +54,11 @@ ValidDate(y, m, d) == y \in 1..9999 /\ m \in 1..12 /\ d \in 1..DaysIn(y, m)
 
 (* week.shape = "iso": exactly four, two and two ASCII digits separated by   *)
 (* "-" (the numbers are y, m, d); anything else is not a date                *)
+(* "isoesc": the same ten characters written with JSON \u escapes in the    *)
+(* body -- the report's week is the decoded string                          *)
+IsoShapes == {"iso", "isoesc"}
 WeekVerdict(w) ==
-    IF w.shape # "iso" THEN "invalid"
+    IF w.shape \notin IsoShapes THEN "invalid"
     ELSE IF w.y = 0 /\ w.m \in 1..12 /\ w.d \in 1..DaysIn(0, w.m) THEN "unspecified"   \* year 0000: not decided here
     ELSE IF ValidDate(w.y, w.m, w.d) THEN "valid" ELSE "invalid"
 
